@@ -235,7 +235,14 @@ class ResourceMap:
         # discriminated between handles and maps.
         for subkey in keys[:-1]:
             target_map.handles.pop(subkey, None)    # Overwrite duplicates
-            target_map = target_map.maps.setdefault(subkey, ResourceMap())
+
+            if subkey not in target_map.maps:
+                submap = ResourceMap()
+                submap.parent = target_map
+                submap.key = subkey
+                target_map.maps[subkey] = submap
+
+            target_map = target_map.maps[subkey]
 
         # For better performance, only one type check is done at this
         # point.
